@@ -42,7 +42,7 @@ func realMain() int {
 	switch os.Args[1] {
 	case "worker":
 		return workerMain()
-	case "c07race", "c18race":
+	case "c07race", "c18race", "c09race":
 		if len(os.Args) < 4 {
 			return usage()
 		}
@@ -50,6 +50,9 @@ func realMain() int {
 		n, _ := strconv.Atoi(os.Args[3])
 		if os.Args[1] == "c07race" {
 			return c07RaceMain(seed, n)
+		}
+		if os.Args[1] == "c09race" {
+			return c09RaceMain(seed, n)
 		}
 		return c18RaceMain(seed, n)
 	case "replay":
